@@ -15,6 +15,8 @@ import (
 	"sync"
 	"time"
 
+	"go/types"
+
 	"github.com/matryer/moq/pkg/moq"
 	"golang.org/x/tools/go/packages"
 )
@@ -53,6 +55,14 @@ type L2Obs struct {
 	Repeats     int    `json:"repeats,omitempty"`
 	Nondet      string `json:"nondet,omitempty"` // first output that differs from the first run
 	Fmt         map[string]string `json:"fmt,omitempty"`
+	Sigs        map[string][]SigNames `json:"sigs,omitempty"` // declared parameter / result names per interface
+}
+
+// SigNames are the names the source gives to the parameters and results of one method.
+type SigNames struct {
+	Method  string   `json:"method"`
+	Params  []string `json:"params"`
+	Results []string `json:"results"`
 }
 
 func cmdL2(args []string) {
@@ -236,6 +246,7 @@ func runL2Case(c L2Case, dumpOnly bool) (o L2Obs) {
 		return
 	}
 	o.Input = in
+	o.Sigs = lastSigs
 	o.Config = fmt.Sprintf("(mkConfig %s %s %s %s)", coqStr(c.Pkg), coqBool(c.Stub), coqBool(c.Skip), coqBool(c.Resets))
 	o.Args = coqStrList(c.Args)
 	if dumpOnly {
@@ -296,10 +307,41 @@ func runL2Case(c L2Case, dumpOnly bool) (o L2Obs) {
 	return
 }
 
+var lastSigs map[string][]SigNames
+
 func dumpInput(c L2Case) (string, error) {
 	src, err := loadSrc(".")
 	if err != nil {
 		return "", err
+	}
+	lastSigs = map[string][]SigNames{}
+	for _, a := range c.Args {
+		name := a
+		if i := strings.Index(a, ":"); i >= 0 {
+			name = a[:i]
+		}
+		obj := src.Types.Scope().Lookup(name)
+		if obj == nil || !types.IsInterface(obj.Type()) {
+			continue
+		}
+		iface, ok := obj.Type().Underlying().(*types.Interface)
+		if !ok {
+			continue
+		}
+		iface = iface.Complete()
+		var ms []SigNames
+		for j := 0; j < iface.NumMethods(); j++ {
+			sig := iface.Method(j).Type().(*types.Signature)
+			sn := SigNames{Method: iface.Method(j).Name(), Params: []string{}, Results: []string{}}
+			for k := 0; k < sig.Params().Len(); k++ {
+				sn.Params = append(sn.Params, sig.Params().At(k).Name())
+			}
+			for k := 0; k < sig.Results().Len(); k++ {
+				sn.Results = append(sn.Results, sig.Results().At(k).Name())
+			}
+			ms = append(ms, sn)
+		}
+		lastSigs[name] = ms
 	}
 	d := &dumper{}
 	seen := map[string]bool{}
